@@ -317,3 +317,89 @@ Definition erase (th : thread) : gthread :=
 Definition phase_fn (ph : phase) : nat := match ph with PRoot f | PFun f => f end.
 
 End Machine.
+
+(** ---------------------------------------------------------------- witnesses and sessions *)
+
+(** EvalWithContext(ctx, program with phases p) on a fresh interpreter: thread 0 is the Execute thread *)
+Definition session (p : list phase) : list action := [ABegin; AExecute p].
+
+Definition alone (t n : nat) : list action := repeat (AStep t false) n.
+
+(** C09 init-list witness: func init() { for { tick(1) } }; func init() { tick(2); tick(2) };
+    func main() { tick(3); tick(3); tick(3) } *)
+Definition F_init : list (list instr) :=
+  [ [];                                  (* 0: root statements: none *)
+    [Tick 1; Jmp 0];                     (* 1: first init *)
+    [Tick 2; Tick 2];                    (* 2: second init *)
+    [Tick 3; Tick 3; Tick 3] ].          (* 3: main *)
+Definition P_init : list phase := [PRoot 0; PFun 1; PFun 2; PFun 3].
+Definition H_init : list action := session P_init ++ alone 0 8.
+
+(** the same program without the pending functions: only main, looping *)
+Definition P_main_only : list phase := [PRoot 0; PFun 1].
+
+(** C09 root-frame witness (REPL style): top-level statements tick(1); ...; tick(6), cancelled
+    after two of them; the host then evaluates "1+1" before the old goroutine is scheduled again *)
+Definition F_root : list (list instr) :=
+  [ [Tick 1; Tick 2; Tick 3; Tick 4; Tick 5; Tick 6];    (* 0: top-level statements *)
+    [Nop] ].                                             (* 1: the expression 1+1 *)
+Definition H_root : list action := session [PRoot 0] ++ alone 0 6.
+Definition H_root_next : list action := [AStop; AExecute [PRoot 1]] ++ alone 1 4 ++ alone 0 20.
+
+(** C09 expired-context witness: stop() runs before Execute has refreshed the root frame *)
+Definition H_expired : list action := [ABegin; AStop; AExecute [PRoot 0]] ++ alone 0 20.
+
+(** C09 stale-channel witness: a function literal created by one evaluation and blocked in a
+    channel receive during the next one keeps the first evaluation's cancellation channel *)
+Definition F_stale : list (list instr) :=
+  [ [MkClos 0 1];          (* 0: var blk = func() { <-ch } *)
+    [Block true];          (* 1: body of blk *)
+    [CallClos 0] ].        (* 2: blk() *)
+Definition H_stale : list action :=
+  session [PRoot 0] ++ alone 0 6 ++ session [PRoot 2] ++ alone 1 8.
+
+(** C10 table: earlier definitions and the expressions using them *)
+Definition F10 : list (list instr) :=
+  [ [Tick 10; Ret];        (* 0: func f *)
+    [Tick 11; Ret];        (* 1: method T.M *)
+    [Tick 12; Ret];        (* 2: body of the function literal stored in clo *)
+    [Tick 13; Ret];        (* 3: method behind the method value mv *)
+    [Call 0];              (* 4: f(2) *)
+    [Call 1];              (* 5: t0.M(2) *)
+    [CallClos 0];          (* 6: clo(2) *)
+    [Call 3];              (* 7: mv(2) *)
+    [MkClos 0 2];          (* 8: clo = func ... *)
+    [Nop; Jmp 0];          (* 9: for {} *)
+    [Go 11; Block true];   (* 10: go func() { <-ch }(); <-ch *)
+    [Block true];          (* 11 *)
+    [Nop];                 (* 12: 1+1 *)
+    [Tick 14; Block true; Tick 15; Ret];   (* 13: func cc: tick, rendez-vous on a channel, tick *)
+    [Call 13] ].           (* 14: cc() *)
+
+(** ---------------------------------------------------------------- the contracts (G), as stated *)
+
+(** thread u sits in a blocking host call (sync.WaitGroup.Wait, Mutex.Lock, ...): outside C09 *)
+Definition in_host_call (F : list (list instr)) (st : state) (u : nat) : bool :=
+  let th := thread_of st u in
+  match stack th with
+  | a :: _ => armed th && match fetch F a with Some (Block false) => true | _ => false end
+  | [] => false
+  end.
+
+(** C09 as stated: in every reachable state, after stop() and under every schedule and all data,
+    every thread performs at most one more operation, and — unless it sits in a host call — exits
+    once it has been scheduled often enough *)
+Definition C09_contract : Prop :=
+  forall F h sched u,
+    let s1 := run F fresh h in
+    let s2 := steps F (do_action F s1 AStop) sched in
+    evs u (log s2) <= evs u (log s1) + 1
+    /\ (forall th, nth_error (threads s1) u = Some th -> in_host_call F s1 u = false ->
+          List.length (stack th) + 2 <= occ u sched -> exited s2 u = true).
+
+(** "from then on": also when the host goes on using the interpreter *)
+Definition C09_contract_session : Prop :=
+  forall F h h' u,
+    let s1 := run F fresh h in
+    u < List.length (threads s1) ->
+    evs u (log (run F s1 (AStop :: h'))) <= evs u (log s1) + 1.
